@@ -163,7 +163,7 @@ func run(c Case) *hx.Outcome {
 	svc.ExtHost.Events.AfterMessageStored.AddListener("c19a", func(m event.MessageMetadata) { evMu.Lock(); stored[m.Mailbox]++; evMu.Unlock() })
 	svc.ExtHost.Events.AfterMessageDeleted.AddListener("c19a", func(m event.MessageMetadata) { evMu.Lock(); deleted[m.Mailbox]++; evMu.Unlock() })
 	count := func(m map[string]int, box string, want int) bool {
-		for i := 0; i < 2000; i++ {
+		for i := 0; i < 10000; i++ {
 			evMu.Lock()
 			n := m[box]
 			evMu.Unlock()
@@ -325,12 +325,26 @@ func run(c Case) *hx.Outcome {
 				fail("dele-lost", "the deletion pending at shutdown was not applied on QUIT (no deleted event for the marked message)")
 			}
 		}
+		// Start closes each listener in its own goroutine when the context ends; nothing in the
+		// shutdown sequence waits for that, so "stops accepting" is given 2 s to become true.
 		for name, addr := range map[string]string{"SMTP": smtpAddr, "POP3": pop3Addr} {
-			if d, err := dial(addr); err == nil {
+			greeted := ""
+			for deadline := time.Now().Add(2 * time.Second); time.Now().Before(deadline); time.Sleep(20 * time.Millisecond) {
+				greeted = ""
+				d, err := dial(addr)
+				if err != nil {
+					break
+				}
 				if l, _ := d.line(300 * time.Millisecond); strings.Contains(l, domain) {
-					fail("accepted-after-shutdown", "after shutdown the %s listener still greets: %q", name, l)
+					greeted = l
 				}
 				_ = d.c.Close()
+				if greeted == "" {
+					break
+				}
+			}
+			if greeted != "" {
+				fail("accepted-after-shutdown", "2 s after the shutdown sequence completed the %s listener still greets: %q", name, greeted)
 			}
 		}
 	}
